@@ -2,13 +2,15 @@
    [derive] (Model/Derive.v) mirrors specification-derive/src/{ast,attr,pathing}.rs on an abstract syntax of enum
    declarations (variants with their attributes in source order); [with_globals d] = d followed by the Crc32 and Void
    variants the macro appends.  rustc, syn and quote are not modelled (see props/c18.py TRUSTED).
-   Scope of "no Bad-specification panic": the theorems below cover the READER's implied-parent seeding (C18_no_implied_parent_panic)
-   and the generated constructors/accessors of the declared variants.  The WRITER still panics, for an accepted specification, when it is
-   handed RawTag(id, _) with an id that the specification declares with a type other than Binary: C18_writer_raw_panics.
+   Scope of "no Bad-specification panic": the theorems below cover the READER's implied-parent seeding (C18_no_implied_parent_panic),
+   the generated constructors/accessors of the declared variants, and the WRITER: no call sequence whose tags are consistent with the
+   specification (a variant fixes id and value kind; RawTag may carry any id) makes the writer model panic (C18_writer_no_panic).
+   The writer used to panic when handed RawTag(id, _) with an id that the specification declares with a type other than Binary;
+   repaired as D27 (/repo commit ec71884; Writer.raw_type): such a tag is now written as is (C18_writer_raw_written).
    "Accepted" is characterised exactly by C18_accepted_iff.  Both front-ends run the same code by definition of [easy_derive]
    (C18_easy_lower describes the lowering); of the attributes, only an unrecognised data_type VALUE is rejected — attributes the
    macro does not know ([AOther]) are ignored, as in the Rust code. *)
-From Ebml Require Import Base Tools Spec Writer Reader Derive Proofs.Tactics Proofs.DeriveProofs Proofs.AuditMisc.
+From Ebml Require Import Base Tools Spec Writer Reader Derive Proofs.Tactics Proofs.DeriveProofs Proofs.AuditMisc Proofs.WriterProofs Proofs.WriterNoPanic.
 
 (* ---- accepted declarations: the table is exactly what was declared ------------------------------------------- *)
 
@@ -56,26 +58,104 @@ Proof. exact accepted_implied. Qed.
 Theorem C18_spec_ok_suffices : forall sp, spec_ok sp -> forall id, implied_stack sp (get_path sp id) <> None.
 Proof. exact spec_ok_implied. Qed.
 
-(* NOT covered — the writer: a RawTag value answers as_binary only, so handing the writer RawTag(id, _) with an id the specification
-   declares as anything but Binary reaches `tag.as_<type>().unwrap_or_else(|| panic!("Bad specification implementation ..."))`
-   (/repo/src/tag_writer.rs: line 360/367 as_master for a declared Master, lines 404-420 for the other types; RawTag is a public
-   variant, the derive's as_binary arm is specification-derive/src/attr.rs:355).  The writer model has the same panic.  With the
-   repository's test specification [test_sp]: RawTag(0x4101 declared UnsignedInt) inside its parent 0x81 and RawTag(0x81 declared
-   Master) panic; RawTag(0xa1 declared Binary) does not (it is refused as misplaced at the root); an undeclared id is written *)
-Example C18_writer_raw_panics :
-  snd (buffer_tag test_sp (TElem 0x4101 (VRaw [1])) o_default (fst (buffer_tag test_sp (TStart 0x81) o_default (w_init [])))) = WPanic /\
-  snd (buffer_tag test_sp (TElem 0x81 (VRaw [])) o_default (w_init [])) = WPanic /\
-  snd (buffer_tag test_sp (TElem 0xa1 (VRaw [1])) o_default (w_init [])) = WErr (EUnexpectedTag 0xa1 []) /\
-  buffer_tag test_sp (TElem 0x4242 (VRaw [1])) o_default (w_init []) =
-    ({| w_open := []; w_buf := [0x42; 0x42; 0x81; 1]; w_dest := []; w_script := [] |}, WOk).
-Proof. exact writer_raw_panics. Qed.
+(* ---- the writer ------------------------------------------------------------------------------------------------------ *)
 
-(* in general, for every specification: buffering RawTag(id, data) panics whenever id is declared with a type ty other than Binary, the
-   unknown-size option is off, and (unless ty is Master, which panics before validation) the element is allowed where it is written *)
-Theorem C18_writer_raw_panic_general : forall sp id data o st ty, get_type sp id = Some ty -> ty <> DBinary -> o_unknown o = false ->
-  (ty = DMaster \/ w_validate sp id (w_open st) = true) ->
-  snd (buffer_tag sp (TElem id (VRaw data)) o st) = WPanic.
-Proof. exact writer_raw_panic_general. Qed.
+(* a RawTag value answers as_binary only.  Handing the writer RawTag(id, _) with an id the specification declares as anything but
+   Binary used to reach `tag.as_<type>().unwrap_or_else(|| panic!("Bad specification implementation ..."))` in
+   /repo/src/tag_writer.rs (RawTag is a public variant).  Repaired as D27: the declared type is looked up only when it is Binary or
+   the tag does not answer as_binary(); otherwise the tag is written as is, like one with an undeclared id (no hierarchy check).
+   With the repository's test specification [test_sp], default options, shown as (state, result) of buffer_tag:
+   RawTag(0x4101 declared UnsignedInt, [1]) inside its parent 0x81: the bytes 41 01 81 01 are appended, Ok;
+   RawTag(0x81 declared Master, []) at the root: 81 80 appended, Ok;
+   RawTag(0xa1 declared Binary, [1]) at the root: treated as the declared element, refused as misplaced, state unchanged;
+   RawTag(0x4242 undeclared, [1]): 42 42 81 01 appended, Ok;
+   and the run Start(0x81), RawTag(0x4101,[1]), End(0x81) against a destination that accepts everything: three Ok, the destination
+   holds 81 84 41 01 81 01.  No WPanic anywhere *)
+Example C18_writer_raw_written_ex :
+  buffer_tag test_sp (TElem 0x4101 (VRaw [1])) o_default (fst (buffer_tag test_sp (TStart 0x81) o_default (w_init []))) =
+    ({| w_open := [(0x81, WKnown 0, O)]; w_buf := [0x41; 0x01; 0x81; 1]; w_dest := []; w_script := [] |}, WOk) /\
+  buffer_tag test_sp (TElem 0x81 (VRaw [])) o_default (w_init []) =
+    ({| w_open := []; w_buf := [0x81; 0x80]; w_dest := []; w_script := [] |}, WOk) /\
+  buffer_tag test_sp (TElem 0xa1 (VRaw [1])) o_default (w_init []) = (w_init [], WErr (EUnexpectedTag 0xa1 [])) /\
+  buffer_tag test_sp (TElem 0x4242 (VRaw [1])) o_default (w_init []) =
+    ({| w_open := []; w_buf := [0x42; 0x42; 0x81; 1]; w_dest := []; w_script := [] |}, WOk) /\
+  run_writer test_sp [OpWrite (TStart 0x81) o_default; OpWrite (TElem 0x4101 (VRaw [1])) o_default; OpWrite (TEnd 0x81) o_default] [] =
+    ([(WOk, 0%nat); (WOk, 0%nat); (WOk, 6%nat)], [0x81; 0x84; 0x41; 0x01; 0x81; 1]).
+Proof. exact writer_raw_written_ex. Qed.
+
+(* in general, for every specification, state and options: buffering RawTag(id, data) where id is declared with a type ty other than
+   Binary (Master included), the unknown-size option is off, id is a well-formed vint (is_vint: the check the writer applies to ids it
+   does not look up) and the size field f exists for the requested width ([size_len_of o]: the explicit width 1..8, or 0 = shortest):
+   the result is Ok and the working buffer grows by exactly id ++ f ++ data; open masters, destination and script are unchanged; the
+   hierarchy is not consulted *)
+Theorem C18_writer_raw_written : forall sp id data o st ty f, get_type sp id = Some ty -> ty <> DBinary -> o_unknown o = false ->
+  is_vint id = true -> size_to_vint (N.of_nat (length data)) (size_len_of o) = Some f ->
+  buffer_tag sp (TElem id (VRaw data)) o st = (append st (id_bytes id ++ f ++ data), WOk).
+Proof. exact writer_raw_written. Qed.
+
+(* under default options the size field exists as soon as the payload is shorter than 2^56-1 bytes *)
+Theorem C18_writer_raw_written_default : forall sp id data st ty, get_type sp id = Some ty -> ty <> DBinary -> is_vint id = true ->
+  N.of_nat (length data) < 2 ^ 56 - 1 ->
+  exists f, size_to_vint (N.of_nat (length data)) O = Some f /\
+            buffer_tag sp (TElem id (VRaw data)) o_default st = (append st (id_bytes id ++ f ++ data), WOk).
+Proof. exact writer_raw_written_default. Qed.
+
+(* without any hypothesis: buffering a RawTag never panics - whatever the specification, the id, the payload, the options, the state *)
+Theorem C18_writer_raw_never_panics : forall sp id data o st, snd (buffer_tag sp (TElem id (VRaw data)) o st) <> WPanic.
+Proof. exact buffer_raw_never_panics. Qed.
+
+(* [tag_consistent sp t] (Proofs/WriterNoPanic.v): what the typing of a generated enum guarantees about a tag value - a variant fixes
+   the id and the kind of value, so an unsigned/signed/float/utf8/binary-valued element carries an id declared with that type, a
+   Start/End/Full carries an id declared Master, and every child of a Full is consistent; RawTag may carry any id *)
+Example C18_tag_consistent_reading : forall sp id cs n z b s bs data,
+  (tag_consistent sp (TElem id (VU n)) <-> get_type sp id = Some DUInt) /\
+  (tag_consistent sp (TElem id (VI z)) <-> get_type sp id = Some DSInt) /\
+  (tag_consistent sp (TElem id (VF b)) <-> get_type sp id = Some DFloat) /\
+  (tag_consistent sp (TElem id (VS s)) <-> get_type sp id = Some DUtf8) /\
+  (tag_consistent sp (TElem id (VB bs)) <-> get_type sp id = Some DBinary) /\
+  (tag_consistent sp (TElem id (VRaw data)) <-> True) /\
+  (tag_consistent sp (TStart id) <-> get_type sp id = Some DMaster) /\
+  (tag_consistent sp (TEnd id) <-> get_type sp id = Some DMaster) /\
+  (tag_consistent sp (TFull id cs) <-> get_type sp id = Some DMaster /\ Forall (tag_consistent sp) cs).
+Proof. intros. repeat (split; [reflexivity|]). apply tag_consistent_full. Qed.
+
+(* the writer half of "used with the iterator and writer it never triggers the 'bad specification' panics": for EVERY specification
+   sp (derived or not), every destination script (what the destination's successive write() calls do: accept n bytes, Interrupted,
+   accept 0, fail) and every call sequence in which the tag of every write / write_advanced (OpWrite, any options) and every
+   write_unknown_size (OpWriteUnknown) is consistent with sp - write_raw, flush and into_inner calls are unrestricted - no call of
+   the run returns the panic outcome.  ([op_consistent sp op] is [tag_consistent sp t] for OpWrite t _ / OpWriteUnknown t, True
+   otherwise.)  Covered panic sites of the model: the accessor unwraps ("Bad specification implementation"), a master tag under a
+   non-master id and vice versa, an undeclared id on a non-binary tag, the size-field encoders (widths are 0 or 1..8), and the
+   `working_buffer.len() - start` underflow when a known-size master is ended *)
+Theorem C18_writer_no_panic : forall sp ops script, Forall (op_consistent sp) ops ->
+  Forall (fun x => fst x <> WPanic) (fst (run_writer sp ops script)).
+Proof. exact writer_no_panic. Qed.
+
+(* the same from any writer state that satisfies the invariant [winv] (every open known-size master started inside of the working
+   buffer; the initial state does: winv_init), and each call preserves the invariant *)
+Theorem C18_writer_no_panic_step : forall sp st op st1 r, winv st -> op_consistent sp op -> wstep sp st op = (st1, r) ->
+  r <> WPanic /\ winv st1.
+Proof. exact wstep_no_panic. Qed.
+
+(* non-vacuity: a consistent call sequence over the test specification - Start(0x81), an unsigned element, a RawTag with an id
+   declared Utf8, a Full master (explicit width 2) with a typed child and an undeclared raw child, a RawTag with the id of a master,
+   an unknown-size Start, write_raw, flush, and an End that is refused because flush closed everything - run against a destination
+   that accepts 3 bytes, is interrupted, then fails, and against one that accepts everything *)
+Example C18_writer_no_panic_ex :
+  let ops := [OpWrite (TStart 0x81) o_default; OpWrite (TElem 0x4101 (VU 5)) o_default; OpWrite (TElem 0x4102 (VRaw [1; 2])) o_default;
+              OpWrite (TFull 0x4103 [TElem 0x210301 (VU 7); TElem 0x4242 (VRaw [9])]) {| o_len := Some 2%nat; o_unknown := false |};
+              OpWrite (TElem 0x81 (VRaw [])) o_default; OpWriteUnknown (TStart 0x4103); OpRaw 0xec [0]; OpFlush;
+              OpWrite (TEnd 0x81) o_default] in
+  Forall (op_consistent test_sp) ops /\
+  run_writer test_sp ops [WAcc 3; WInt; WFail 7] =
+    ([(WOk, 0%nat); (WOk, 0%nat); (WOk, 0%nat); (WOk, 0%nat); (WOk, 0%nat); (WOk, 0%nat); (WOk, 0%nat);
+      (WErr (EIo (IoCode 7)), 3%nat); (WErr (EClose 0x81 None), 3%nat)], [0x81; 0xa5; 0x41]) /\
+  run_writer test_sp ops [] =
+    ([(WOk, 0%nat); (WOk, 0%nat); (WOk, 0%nat); (WOk, 0%nat); (WOk, 0%nat); (WOk, 0%nat); (WOk, 0%nat);
+      (WOk, 39%nat); (WErr (EClose 0x81 None), 39%nat)],
+     [0x81; 0xa5; 0x41; 0x01; 0x81; 5; 0x41; 0x02; 0x82; 1; 2; 0x41; 0x03; 0x40; 9; 0x21; 0x03; 0x01; 0x81; 7; 0x42; 0x42; 0x81; 9;
+      0x81; 0x80; 0x41; 0x03; 0x01; 0xff; 0xff; 0xff; 0xff; 0xff; 0xff; 0xff; 0xec; 0x81; 0]).
+Proof. cbv zeta. split; [repeat constructor|]. vm_compute. split; reflexivity. Qed.
 
 (* get_<ty>_tag(id, _) constructs a tag iff the table gives id the type ty *)
 Theorem C18_ctor : forall d pvs, derive_full d = Some pvs -> forall ty id,
